@@ -70,18 +70,14 @@ Qed.
 
 Lemma split_sign_other c r : c <> 45 -> c <> 43 -> split_sign (c :: r) = (false, c :: r).
 Proof.
-  intros H1 H2. unfold split_sign. destruct c as [|p]; auto.
-  do 6 (try (destruct p as [p|p|]; auto)); exfalso; auto.
+  intros H1 H2. unfold split_sign. apply N.eqb_neq in H1, H2. rewrite H1, H2. reflexivity.
 Qed.
 
 Lemma strip_hex_prefix_other c r :
   match r with x :: _ => x <> 120 /\ x <> 88 | [] => True end -> strip_hex_prefix (c :: r) = c :: r.
 Proof.
-  intros H. unfold strip_hex_prefix. destruct r as [|x r0].
-  - destruct c as [|p]; auto. do 6 (try (destruct p as [p|p|]; auto)).
-  - destruct H as [H1 H2]. assert ((x =? 120) || (x =? 88) = false).
-    { apply orb_false_iff. split; apply N.eqb_neq; auto. }
-    destruct c as [|p]; auto. do 6 (try (destruct p as [p|p|]; auto)); rewrite H; auto.
+  intros H. unfold strip_hex_prefix. destruct r as [|x r0]; auto.
+  destruct H as [H1 H2]. apply N.eqb_neq in H1, H2. rewrite H1, H2. rewrite andb_false_r. reflexivity.
 Qed.
 
 Lemma py_int_hex h :
@@ -156,10 +152,10 @@ Qed.
 Lemma check_uuid_valid vr s v :
   vr_uuid_canon vr = true -> check_uuid vr s v false = Ok true -> valid_uuid_text v s = true.
 Proof.
-  intros Hc H. unfold check_uuid in H. inv_bind H. rewrite Hc in Hb. simpl in Hb.
-  destruct (canonical_uuid_text s) eqn:Ec; simpl in Hb; [|discriminate].
-  unfold valid_uuid_text. rewrite Ec. simpl.
-  rewrite <- (py_uuid_int_canonical s a Ec Ha). inversion Hb. destruct v; auto.
+  intros Hc H. unfold check_uuid in H. inv_bind H. rewrite Hc in Hb.
+  destruct (canonical_uuid_text s) eqn:Ec; cbn [andb negb] in Hb; [|discriminate].
+  unfold valid_uuid_text. rewrite Ec. rewrite andb_true_l.
+  rewrite <- (py_uuid_int_canonical s a Ec Ha). injection Hb as Hb. destruct v; exact Hb.
 Qed.
 
 Lemma validate_id_valid vr s v prefix :
